@@ -4,7 +4,9 @@ Correspondence: types.Scope.RegisterFunction / FindFunction (with Function.Match
 Lean model `Overload.findFunction` (driver `ovl`).
 Oracle: a Python transcription of the rule in the property statement (viable = same arity and every argument
 convertible; fewest conversions; unique or rejected), evaluated for every ordered list of overloads, so that
-agreement for all orders is order independence.  End to end: programs whose overloads return distinct
+agreement for all orders is order independence.  Aggregate leg: the same over the whole universe of parameter types
+(arrays, structs, one-component vectors, __optional parameters) against `Overload.findFunctionA` (driver `ovla`,
+Props/C10Agg.lean); the real scope is handed a NEW type object for every occurrence of a type.  End to end: programs whose overloads return distinct
 constants are compiled and run on the VM; the value identifies the function that ran."""
 import itertools
 import common, implrun
@@ -12,12 +14,19 @@ import common, implrun
 RULE = ("API level: signatures with <=2 parameters over {int, uint, float, int2, float2} (31); every ordered list of <=2 overloads (quick) / "
         "<=3 overloads (thorough) x every argument list (31), plus a seeded sample of 3-overload lists over the larger universe "
         "{int, uint, float, int2, float2, float3, float3x3, float4x4} and lookups through nested scopes; end to end: every ordered pair of "
-        "distinct overloads over {int, float} x {1,2} parameters x every argument list, compiled and run. Non-trivial: at least two "
+        "distinct overloads over {int, float} x {1,2} parameters x every argument list, compiled and run; aggregate leg: every ordered pair of "
+        "one-parameter overloads over 15 types (arrays, nested arrays, arrays of structs, structs incl. two declarations of one name, float1) x "
+        "every argument type, a seeded sample with 0-3 arguments, optional parameters and 1-4 overloads, and programs with array / struct "
+        "parameters. Non-trivial: at least two "
         "overloads of the called name; distinct = distinct (overload list, argument list)")
 EXHAUSTIVE = {"quick": False, "thorough": True}
 ASSUMPTIONS = ["convertible: scalars among each other, vectors of equal size, matrices of equal shape (the language's IsCompatible on "
-               "primitive types); one-component vectors, arrays, structs and __optional parameters are outside the modelled universe",
-               "the end-to-end leg needs the VM to run a call with scalar arguments (C03 is not claimed)"]
+               "primitive types)",
+               "the end-to-end leg needs the VM to run a call with scalar arguments (C03 is not claimed)",
+               "aggregate leg: arrays (any nesting), structs, one-component vectors and __optional parameters are in the model `ovla` "
+               "(Props/C10Agg.lean) and in the API-level correspondence; end to end, a call whose chosen overload takes an array of "
+               "another element type (int[3] for float[3]: IsCompatible admits it) is not compilable (no whole-array conversion exists) "
+               "and is not judged; void is not a parameter type"]
 TRUSTED = ["Nsl/Model/Overload.lean mirrors IsCompatible / Match / Function.Match / Scope.FindFunction"]
 
 SMALL = [("s", "int"), ("s", "uint"), ("s", "float"), ("v", "int", 2), ("v", "float", 2)]
@@ -180,6 +189,179 @@ def e2e_run(src, args):
     return r[1] if r[0] == "ok" else "crash:%s:%s" % (r[0], r[1])
 
 
+# ---------------------------------------------------------------- the full type universe: aggregates, one-component vectors,
+# optional parameters (API level + end to end).  Types: the primitive tuples above, ("A", elem, dims), ("S", name, fields).
+# (void is neither primitive nor aggregate in nsl/types.py and cannot be a parameter type: outside the universe)
+
+P1 = ("S", "P", (("x", ("s", "float")), ("y", ("s", "float"))))
+P2 = ("S", "P", (("x", ("s", "float")), ("y", ("s", "int"))))          # same name, another declaration
+Q1 = ("S", "Q", (("x", ("s", "float")), ("y", ("s", "float"))))
+AF3, AI3, AF2 = ("A", ("s", "float"), (3,)), ("A", ("s", "int"), (3,)), ("A", ("s", "float"), (2,))
+AGG = [("s", "int"), ("s", "float"), ("v", "float", 2), ("v", "float", 1), AF3, AI3, AF2, ("A", ("s", "float"), (3, 2)),
+       ("A", ("v", "float", 2), (3,)), ("A", AF3, (2,)), P1, P2, Q1, ("A", P1, (2,)), ("A", Q1, (2,))]
+
+
+def xstr(t):
+    if t[0] == "void": return "void"
+    if t[0] == "A": return "A[%s;%s]" % (xstr(t[1]), ";".join(str(d) for d in t[2]))
+    if t[0] == "S": return "S{%s;%s}" % (t[1], ";".join("%s=%s" % (n, xstr(ft)) for n, ft in t[2]))
+    return tstr(t)
+
+
+def ximpl(T, t):
+    """a NEW type object on every call (a type loaded from a stored module is a copy of its declaration)"""
+    import collections
+    if t[0] == "void": return T.Void()
+    if t[0] == "A": return T.ArrayType(ximpl(T, t[1]), list(t[2]))
+    if t[0] == "S": return T.StructType(t[1], collections.OrderedDict((n, ximpl(T, ft)) for n, ft in t[2]))
+    return impl_type(T, t)
+
+
+def xred(t):
+    return ("s", t[1]) if t[0] == "v" and t[2] == 1 else t
+
+
+def xconvertible(a, p):
+    """the language's rule: arrays of the same size with convertible elements; void only with void; numeric types of the same
+    shape (a one-component vector counts as a scalar); a struct only with the same struct"""
+    if a[0] == "A" or p[0] == "A":
+        return a[0] == p[0] and a[2] == p[2] and xconvertible(a[1], p[1])
+    if a[0] == "void" or p[0] == "void": return a[0] == p[0]
+    if a[0] == "S" or p[0] == "S": return a == p
+    a, p = xred(a), xred(p)
+    return a[0] == p[0] and (a[0] == "s" or a[2:] == p[2:])
+
+
+def xspec_best(sigs, name, args):
+    """sigs: list of (name, [(type, optional)])"""
+    named = [(i, s) for i, s in enumerate(sigs) if s[0] == name]
+    if not named: return "unknown"
+    def viable(ps):
+        return len(args) <= len(ps) and all(o for _, o in ps[len(args):]) and all(xconvertible(a, p) for a, (p, _) in zip(args, ps))
+    v = [(i, s) for i, s in named if viable(s[1])]
+    if not v: return "nomatch"
+    cost = lambda s: sum(1 for a, (p, _) in zip(args, s[1]) if a != p)
+    m = min(cost(s) for _, s in v)
+    best = [i for i, s in v if cost(s) == m]
+    return ("ok", best[0]) if len(best) == 1 else "ambiguous"
+
+
+def ximpl_find(sigs, name, args):
+    T, A, E = implrun.types, implrun.ast_mod, implrun.Errors
+    scope, ident = T.Scope(None), {}
+    for j, (n, params) in enumerate(sigs):
+        f = T.Function(n, T.Integer(), [A.Argument(ximpl(T, p), "p%d" % i, {A.ArgumentModifier.Optional} if o else set()) for i, (p, o) in enumerate(params)])
+        f.Resolve(scope)
+        scope.RegisterFunction(n, f)
+        ident[id(f)] = j
+    try:
+        with implrun.quiet():
+            f = scope.FindFunction(name, [ximpl(T, a) for a in args])
+    except E.CompileException as e:
+        return {E.ERROR_UNKNOWN_FUNCTION_CALL: "unknown", E.ERROR_NO_MATCHING_OVERLOAD_FUNCTION_CALL: "nomatch",
+                E.ERROR_AMBIGUOUS_FUNCTION_CALL: "ambiguous"}.get(e.message, "error:" + str(e))
+    except Exception as e:
+        return "crash:%s:%s" % implrun.exc_site(e)[:2]
+    return ("ok", ident.get(id(f), -1))
+
+
+def xsig_line(i, name, params):
+    return "%s/%d/%s" % (name, i, ",".join(("?" if o else "") + xstr(p) for p, o in params) or "-")
+
+
+def agg_cases(run):
+    rng = run.rng
+    one = [[(t, False)] for t in AGG]
+    # every ordered pair of one-parameter overloads x every argument type
+    for a, b in itertools.product(one, repeat=2):
+        for t in AGG:
+            yield [("g", a), ("g", b)], "g", (t,)
+    def rsig(n):
+        ps = [(rng.choice(AGG), False) for _ in range(n)]
+        k = rng.choice([0, 0, 1, 2])                      # trailing optional parameters
+        for i in range(max(0, n - k), n): ps[i] = (ps[i][0], True)
+        if rng.random() < .1 and n: ps[rng.randrange(n)] = (ps[rng.randrange(n)][0], True)     # an optional that is not trailing
+        return ps
+    for _ in range(40000 if run.tier == "thorough" else 5000):
+        na = rng.choice([0, 1, 1, 2, 2, 3])
+        args = tuple(rng.choice(AGG) for _ in range(na))
+        sigs = []
+        for _ in range(rng.choice([1, 2, 3, 3, 4])):
+            ps = rsig(rng.choice([na, na, na + 1, na + 2, max(0, na - 1)]))
+            if rng.random() < .6:
+                # derived from the call: exact, or with some positions replaced by a convertible / another type
+                for i, a in enumerate(args[:len(ps)]):
+                    if rng.random() < .6: ps[i] = (a, ps[i][1])
+                    elif rng.random() < .5:
+                        alt = [t for t in AGG if t != a and xconvertible(a, t)]
+                        if alt: ps[i] = (rng.choice(alt), ps[i][1])
+            sigs.append((rng.choice(["g", "g", "g", "h"]), ps))
+        yield sigs, rng.choice(["g", "g", "g", "h", "k"]), args
+
+
+XNSL = {AF3: "float[3]", AI3: "int[3]", AF2: "float[2]", P1: "P", Q1: "Q", ("s", "int"): "int", ("s", "float"): "float", ("v", "float", 2): "float2"}
+
+
+def agg_e2e_source(sigs, arg):
+    decl = lambda t, n: ("%s%s %s" % (XNSL[t].split("[")[0], "[" + XNSL[t].split("[")[1] if "[" in XNSL[t] else "", n))
+    fs = ["struct P { float x; float y; }", "struct Q { float x; float y; }"]
+    for i, p in enumerate(sigs):
+        fs.append("function g(%s) -> int { return %d; }" % (decl(p, "p"), 10 + i))
+    fs.append("export function f() -> int { %s; return g(v); }" % decl(arg, "v"))
+    return "\n".join(fs) + "\n"
+
+
+def agg_leg(run, d):
+    """API level over the full universe (model `ovla` + rule) and programs with array / struct parameters"""
+    have_model = True
+    batch = []
+    def flush():
+        ans = d.ask_many([b[0] for b in batch]) if have_model else [None] * len(batch)
+        for (line, sigs, name, args, got), a in zip(batch, ans):
+            want = xspec_best(sigs, name, args)
+            ncand = sum(1 for s in sigs if s[0] == name)
+            kinds = set(t[0] for t in args) | set(p[0] for _, ps in sigs for p, _ in ps)
+            run.case(("agg", line), nontrivial=ncand >= 2 and bool(kinds & {"A", "S", "void"}) or any(o for _, ps in sigs for _, o in ps))
+            run.count("agg:candidates:%d" % min(ncand, 4)); run.count("agg:result:" + (got if isinstance(got, str) else "ok").split(":")[0])
+            for k in sorted(kinds & {"A", "S", "void"}): run.count("agg:kind:" + k)
+            if any(o for _, ps in sigs for _, o in ps): run.count("agg:optional-parameter")
+            inp = dict(overloads=[xsig_line(i, n, p) for i, (n, p) in enumerate(sigs)], call=name, args=[xstr(x) for x in args], expected=rstr(want), line=line)
+            if have_model:
+                model, lean_spec = split2(a)
+                if a == "error": raise common.Infra("model cannot parse: " + line)
+                if rstr(got) != model: run.mismatch("api-aggregate", inp, model, rstr(got))
+                if lean_spec != rstr(want): run.mismatch("api-aggregate-spec", inp, lean_spec, rstr(want))
+            if rstr(got) != rstr(want):
+                cls = "crash" if rstr(got).startswith("crash") else "wrong-candidate" if not isinstance(got, str) and not isinstance(want, str) else \
+                      "accepts-nonviable" if not isinstance(got, str) else "rejects-valid" if not isinstance(want, str) else "wrong-error"
+                run.fail("api-aggregate", inp, "call %s(%s) with overloads %s resolves to %s, the rule gives %s" %
+                         (name, ", ".join(inp["args"]), inp["overloads"], rstr(got), rstr(want)), key="api-aggregate:" + cls)
+        batch.clear()
+    for sigs, name, args in agg_cases(run):
+        line = "ovla %s %s %s" % (name, ",".join(xstr(a) for a in args) or "-", " ".join(xsig_line(i, n, p) for i, (n, p) in enumerate(sigs)))
+        batch.append((line, sigs, name, args, ximpl_find(sigs, name, args)))
+        if len(batch) >= 4000: flush()
+    flush()
+    # ---- end to end: one-parameter overloads over arrays, structs and scalars, the argument a local of each type
+    E = [AF3, AI3, AF2, P1, Q1, ("s", "int"), ("s", "float")]
+    for combo in [(a,) for a in E] + [c for c in itertools.permutations(E, 2)]:
+        for arg in E:
+            want = xspec_best([("g", [(p, False)]) for p in combo], "g", (arg,))
+            exp = (10 + want[1]) if not isinstance(want, str) else "reject"
+            src = agg_e2e_source(combo, arg)
+            got = e2e_run(src, ())
+            run.case(("agg-e2e", combo, arg), nontrivial=len(combo) >= 2, sample=dict(source=src, returned=got) if (len(combo) == 2 and got == 11 and len(run.samples) < 6) else None)
+            run.count("agg:e2e"); run.count("agg:e2e:" + ("runs" if isinstance(got, int) else str(got).split(":")[0]))
+            if got != exp:
+                if isinstance(got, str) and isinstance(exp, int) and arg != combo[want[1]] and arg[0] == "A":
+                    # the chosen overload takes an array of another element type: IsCompatible admits it, but no conversion of a
+                    # whole array exists (AddImplicitCasts asserts, the program is not accepted): not a resolution outcome
+                    run.count("agg:e2e:converted-array-argument-not-compilable"); continue
+                run.fail("e2e", dict(source=src, args=[xstr(arg)], expected=exp), "the call in\n%s returns %r, the rule gives %r" % (src, got, exp),
+                         key="e2e-aggregate:" + ("crash" if str(got).startswith("crash") else "wrong-function" if isinstance(got, int) and isinstance(exp, int)
+                                                 else "accepts" if isinstance(got, int) else "rejects"))
+
+
 def explore(run, widen=1):
     implrun.load()
     d = common.Driver()
@@ -210,6 +392,7 @@ def explore(run, widen=1):
         batch.append((line, scopes, name, args, impl_find(scopes, name, args)))
         if len(batch) >= 5000: flush()
     flush()
+    agg_leg(run, d)
     d.close()
     # ---- end to end
     E2 = [("s", "int"), ("s", "float")]
@@ -276,9 +459,45 @@ def matches(entry, failure):
     return entry.get("matcher") == failure["key"]
 
 
+def xparse(s):
+    """inverse of xstr"""
+    if s == "void": return ("void",)
+    def split_top(body):
+        out, depth, cur = [], 0, ""
+        for ch in body:
+            if ch in "[{": depth += 1
+            if ch in "]}": depth -= 1
+            if ch == ";" and depth == 0: out.append(cur); cur = ""
+            else: cur += ch
+        out.append(cur); return out
+    if s.startswith("A["):
+        parts = split_top(s[2:-1]); return ("A", xparse(parts[0]), tuple(int(d) for d in parts[1:]))
+    if s.startswith("S{"):
+        parts = split_top(s[2:-1]); return ("S", parts[0], tuple((f.split("=", 1)[0], xparse(f.split("=", 1)[1])) for f in parts[1:]))
+    p = s.split(":"); return tuple([p[0], p[1]] + [int(v) for v in p[2:]])
+
+
 def replay(obj):
     implrun.load()
     x = obj["input"]
+    if "overloads" in x:
+        def split_params(ps):
+            out, depth, cur = [], 0, ""
+            for ch in ps:
+                if ch in "[{": depth += 1
+                if ch in "]}": depth -= 1
+                if ch == "," and depth == 0: out.append(cur); cur = ""
+                else: cur += ch
+            return out + [cur]
+        sigs = []
+        for l in x["overloads"]:
+            n, _, ps = l.split("/", 2)
+            sigs.append((n, [] if ps == "-" else [(xparse(t.lstrip("?")), t.startswith("?")) for t in split_params(ps)]))
+        got = ximpl_find(sigs, x["call"], tuple(xparse(a) for a in x["args"]))
+        return rstr(got) == x["expected"], "resolves to %s, the rule gives %s" % (rstr(got), x["expected"])
+    if "source" in x and "struct P" in x["source"]:
+        got = e2e_run(x["source"], ())
+        return got == x["expected"], "returns %r, expected %r" % (got, x["expected"])
     if "source" in x:
         def parse(s):
             p = s.split(":"); return tuple([p[0], p[1]] + [int(v) for v in p[2:]])
